@@ -633,6 +633,27 @@ def refinement_callers_clause(model, rep, funcs):
     rep.floor("LIMIT", 3, "(ncc, zncc and fsc refinements)")
 
 
+def limit_forwarding_clause(model, rep):
+    """Every loader / alignment entry point that is given `max_shifts` hands a value derived from it to each callee that takes a `max_shifts` of its own
+    (otherwise the callee's default limit applies and the molecule may move further than the caller allowed)."""
+    from .generic import forwarded_parameter_obligations
+    takers = {}
+    for g in model.all_functions:
+        if "max_shifts" in g.param_names() and not g.is_overload:
+            a_ = g.node.args
+            ps = [x.arg for x in list(a_.posonlyargs) + list(a_.args)]
+            if g.cls is not None and not g.is_staticmethod and ps:
+                ps = ps[1:]
+            takers.setdefault(g.name, set())
+            if "max_shifts" in ps:
+                takers[g.name].add(ps.index("max_shifts"))
+    n = 0
+    for fn in model.all_functions:
+        if fn.module.relpath.startswith(("acryo/loader/", "acryo/alignment/")) and "max_shifts" in fn.param_names() and not fn.is_overload:
+            n += forwarded_parameter_obligations(model, rep, fn, "max_shifts", takers, "4 normalisation")
+    rep.floor("FWDP", 8, "(calls that take max_shifts inside functions that were given one)")
+
+
 def check(model, rep, tier):
     rep.decided += ["C05.1 refined shift stays within +-max_shifts for every integer peak / refined index (affine forms with rounding atoms, "
                     "Fourier-Motzkin); mesh encoder/decoder identity", "C05.2 ZNCC/NCC crop: pad_width_eff >= 1, symmetric, half-width <= max_shifts",
@@ -649,6 +670,7 @@ def check(model, rep, tier):
     normalisation_clause(model, rep, funcs)
     finite_clause(model, rep, funcs)
     refinement_callers_clause(model, rep, funcs)
+    limit_forwarding_clause(model, rep)
     from .generic import axis_convention_obligations, parallel_index_obligations, functions_in
     axis_convention_obligations(model, rep, ["acryo/backend/_upsample.py", "acryo/backend/_zncc.py", "acryo/backend/_pcc.py", "acryo/backend/_fsc.py", "acryo/backend/_mesh.py"], "3 layout", floor=3)
     for fn in functions_in(model, ["acryo/backend/_upsample.py", "acryo/backend/_zncc.py", "acryo/backend/_pcc.py", "acryo/backend/_fsc.py", "acryo/backend/_mesh.py"]):
